@@ -62,7 +62,7 @@ func TestCheck(t *testing.T) {
 	r.SetRule("trials = GOMAXPROCS {1,2,4,8,16} x hello {fully buffered before the call, delivered by another goroutine after a yield, delivered in two halves} x cancel {immediately after return (the 'defer cancel()' idiom), " +
 		"after Gosched, from another goroutine racing the return, deadline expiry, never} x background load {idle, spinning goroutines}; orderings are produced by the Go scheduler, not enumerated. " +
 		"Observation: a transport tap logs every SetDeadline with a global sequence number, a context wrapper logs when the watcher goroutine first evaluates ctx.Done(); after quiescence (no goroutine with a NewConn frame) " +
-		"the Conn must still read and write. distinct = distinct (GOMAXPROCS, hello mode, cancel mode, load, interleaving class) combinations observed")
+		"the Conn must still read and write, including a HelloRetryRequest exchange with a retried hello long after the context ended. distinct = distinct (GOMAXPROCS, hello mode, cancel mode, load, interleaving class) combinations observed")
 	r.Assume("only schedules the Go runtime produces under these settings are covered; the evidence lists how many trials fell into each interleaving class",
 		"the dangerous schedule is 'the watcher goroutine gets to run only after NewConn's work is done and the context has ended'; late_watcher_* counters say how often the scheduler produced it")
 
